@@ -60,6 +60,10 @@ class FnGraph:
         def transfer(n, st, label):
             st = dict(st)
             node = n.ast
+            # `not <test>`: the same test with the edges exchanged
+            while n.kind == "test" and isinstance(node, ast.UnaryOp) and isinstance(node.op, ast.Not) and label in ("true", "false"):
+                node = node.operand
+                label = "false" if label == "true" else "true"
             if n.kind == "stmt" and isinstance(node, ast.Assign):
                 for t in node.targets:
                     for x in ast.walk(t):
